@@ -785,8 +785,22 @@ def build_case(sp, excl):
     return case
 
 
-def case_strategy(cls, big, excl):
-    return abstract_strategy(cls, big).map(lambda sp: build_case(sp, excl))
+def apply_pin(sp, pin):
+    """Fix some drawn choices of an abstract case (stratified shards: the
+    combinations in which an algorithm takes a different code path get their
+    own budget instead of a few per cent of the general one)."""
+    for k, v in (pin or {}).items():
+        if k.startswith('knob:'):
+            if k[5:] in sp['knobs']:
+                sp['knobs'][k[5:]] = v
+        else:
+            sp[k] = v
+    return sp
+
+
+def case_strategy(cls, big, excl, pin=None):
+    return abstract_strategy(cls, big).map(
+        lambda sp: build_case(apply_pin(sp, pin), excl))
 
 
 # --------------------------------------------------------------------------
@@ -1379,7 +1393,7 @@ def run_shard(spec, ctx):
             break
         nfail = len(stats.failures)
         runner.new_round()
-        search(case_strategy(cls, big, list(excl)), runner,
+        search(case_strategy(cls, big, list(excl), spec.get('pin')), runner,
                derive_seed(ctx.seed, 'C01', spec['name'], rounds),
                budget + spent, stats, shrink=True, max_rounds=1,
                journal=ctx.journal)
@@ -1425,4 +1439,26 @@ def plan(ctx):
                 'exclude': [e for e in known if e['cls'] == cls],
                 'omp': 4,
             })
+    # stratified shards: multi-resolution input for every algorithm, and the
+    # builder variants of the trees (Octree builds serially with one thread,
+    # CompressedOctree with one or two, both in parallel otherwise or when
+    # test_parallel is set)
+    strat = [(short, cls, 'varh', {'hmode': 'log'})
+             for short, cls in CLASSES.items()]
+    strat += [('Octree', 'OctreeNNPS', 'serial',
+               {'hmode': 'log', 'threads': 1, 'knob:test_parallel': False}),
+              ('CompOctree', 'CompressedOctreeNNPS', 'serial',
+               {'hmode': 'log', 'threads': 2, 'knob:test_parallel': False}),
+              ('Octree', 'OctreeNNPS', 'parallel',
+               {'hmode': 'log', 'threads': 3}),
+              ('CompOctree', 'CompressedOctreeNNPS', 'parallel',
+               {'hmode': 'log', 'threads': 3})]
+    per = 120 if quick else 4000
+    for short, cls, what, pin in strat:
+        specs.append({
+            'name': '%s-%s' % (short, what), 'cls': cls, 'component': cls,
+            'klass': {'class': cls}, 'max_examples': per,
+            'exclude': [e for e in known if e['cls'] == cls],
+            'omp': 4, 'pin': pin,
+        })
     return specs
